@@ -49,6 +49,7 @@ class Post:
         # kind: R real, V (virtual), B [balanced virtual]; cost: ('u'|'t', Amt); lot: Amt per-unit price
         # vcost: the cost is written (@) / (@@) - a "virtual cost", which enters no price history but balances like any cost
         self.acct, self.kind, self.amt, self.cost, self.lot, self.vcost = acct, kind, amt, cost, lot, vcost
+        self.lot_date, self.lot_note = None, None       # the written [date] and (note) of a lot: part of the commodity's identity
 
     def must_balance(self):
         return self.kind != 'V'
@@ -59,7 +60,9 @@ class Post:
             return None
         if self.lot is None:
             return self.amt.sym
-        return '%s~{%s/%s %s}' % (self.amt.sym, self.lot.value.numerator, self.lot.value.denominator, self.lot.sym)
+        return ('%s~{%s/%s %s}' % (self.amt.sym, self.lot.value.numerator, self.lot.value.denominator, self.lot.sym) +
+                (' [%s]' % self.lot_date if getattr(self, 'lot_date', None) else '') +
+                (' (%s)' % self.lot_note if getattr(self, 'lot_note', None) else ''))
 
     def text(self):
         a = {'R': '%s', 'V': '(%s)', 'B': '[%s]'}[self.kind] % self.acct
@@ -68,6 +71,10 @@ class Post:
         s = self.amt.text()
         if self.lot is not None:
             s += ' {%s}' % self.lot.text()
+            if getattr(self, 'lot_date', None):
+                s += ' [%s]' % self.lot_date
+            if getattr(self, 'lot_note', None):
+                s += ' (%s)' % self.lot_note
         if self.cost is not None:
             op = '@' if self.cost[0] == 'u' else '@@'
             s += ' %s ' % (('(%s)' % op) if getattr(self, 'vcost', False) else op) + self.cost[1].text()
@@ -160,6 +167,12 @@ def canon_amount(r):
             psym = (mm.group(1) or mm.group(3)).strip()
             pv = F(mm.group(2).replace(',', ''))
             key = '%s~{%s/%s %s}' % (sym, pv.numerator, pv.denominator, psym)
+            dm = re.search(r'\[([^\]]*)\]', ann)
+            nm = re.search(r'\(([^)]*)\)', ann[pm.end():])
+            if dm:
+                key += ' [%s]' % dm.group(1).strip()
+            if nm:
+                key += ' (%s)' % nm.group(1)
         else:
             key = sym + '~' + ann.strip()
     return (key, F(int(m.group(3)), int(m.group(4))), int(m.group(5)), int(m.group(6)))
@@ -403,6 +416,20 @@ def gen_virtual_lot(rng, elide=True):
         posts.append(Post(acct_of(rng, 'R'), 'R', a.neg()))
     if rng.random() < 0.5:
         rng.shuffle(posts)
+    return Xact(posts)
+
+
+def gen_lot_notes(rng):
+    """a purchase of a lot written with {price}, [date] and (note), paid exactly: lots of one commodity bought at the same
+    price on the same lot date but carrying different notes are different lots, whatever order they are read in"""
+    units = rng.randrange(1, 40)
+    price = F(rng.choice([1000, 1000, 1250, 725]), 100)
+    p1 = Post('Assets:Broker:X' if rng.random() < 0.7 else 'Assets:Bank', 'R', Amt(units, 0, 'AAA'), None, Amt(price, 2, '$'))
+    p1.lot_date = rng.choice(['2020/01/05', '2020/01/05', '2020/02/01', None])
+    p1.lot_note = rng.choice(['lotA', 'lotB', 'ira', None])
+    posts = [p1, Post('Assets:Cash', 'R', Amt(-price * units, 2, '$'))]
+    if rng.random() < 0.4:
+        posts.reverse()
     return Xact(posts)
 
 
